@@ -140,6 +140,41 @@ def pred_dn_frames(inp):
     return ok, f'frames={f}: shape {many.shape}; equal to the single frame: {ok}'
 
 
+def _lut_table(bits, kind):
+    n = 2 ** bits
+    k = np.arange(n, dtype=np.int64)
+    if kind == 'identity':
+        return k.astype(np.uint16 if bits > 8 else np.uint8)
+    if kind == 'gamma':                      # monotone, float-valued response curve
+        return np.sqrt(k / max(1, n - 1)) * (n - 1)
+    return ((k * 7 + 3) % n).astype(np.uint16)   # 'scramble': a permutation of the codes, so every misplaced index shows
+
+
+def pred_dn_lut(inp):
+    """Detector(lut=...): the exposure is lut[DN of the same detector without lut], sample for sample, in the documented shape for one
+    and for several frames; the identity table changes nothing (so the DN stay in range)"""
+    det = _impl()[0]
+    cfg, img = inp['cfg'], np.asarray(inp['img'], dtype=float)
+    frames = inp.get('frames', 1)
+    lut = _lut_table(cfg['bits'], inp['lut'])
+    plain = _expose(cfg, img, frames)
+    d = det.Detector(cfg['dc'], cfg.get('read_noise', 3.0), cfg['bias'], cfg['fwc'], cfg['gain'], cfg['bits'], cfg['t'],
+                     prnu=None if cfg.get('prnu') is None else np.asarray(cfg['prnu'], dtype=float),
+                     dcnu=None if cfg.get('dcnu') is None else np.asarray(cfg['dcnu'], dtype=float), lut=lut.copy())
+    with noise_off():
+        out = d.expose(img.copy(), frames=frames)
+    want_shape = img.shape if frames == 1 else (frames,) + img.shape
+    if out.shape != want_shape:
+        return False, f'with a lut: shape {out.shape}, documented {want_shape}'
+    exp = lut[plain.astype(np.int64)]
+    if not np.array_equal(out, exp):
+        k = np.unravel_index(int(np.argmax(out != exp)), exp.shape)
+        return False, f'lut={inp["lut"]}: sample {k} reads {out[k]!r}, lut[DN={plain[k]}] = {exp[k]!r}'
+    if not np.array_equal(d.lut, lut):
+        return False, 'expose modified the detector\'s lut'
+    return True, 'ok'
+
+
 def pred_dn_real_rng(inp):
     """the REAL random generator (seeded): integers of the documented dtype and shape inside [0, 2^bits - 1]"""
     det = _impl()[0]
@@ -425,6 +460,60 @@ def pred_malvar_constant(inp):
     return ok, f'uniform mosaic {v} demosaicks to values in [{rgb.min()!r}, {rgb.max()!r}]'
 
 
+COLOUR_SHAPES = [(5, 5), (6, 6), (5, 8), (6, 9), (7, 7), (8, 6), (10, 12), (12, 7), (16, 16)]
+
+
+def _colour_mosaic(m, n, cfa, colour):
+    """mosaic of a scene of one colour (r, g, b): each site holds the level of the colour that lives there"""
+    nat = _native(cfa.lower())
+    lev = {'r': colour[0], 'g1': colour[1], 'g2': colour[1], 'b': colour[2]}
+    img = np.empty((m, n))
+    for name in PL:
+        r0, c0 = nat[name]
+        img[r0::2, c0::2] = lev[name]
+    return img
+
+
+def pred_malvar_colour(inp):
+    """theorem malvar_uniform_colour: a mosaic of ONE colour (r, g, b different) demosaicks to (r, g, b) at every sample two or
+    more samples from the border (there the 5x5 window never meets ndimage's reflect rule), in every channel"""
+    by = _impl()[1]
+    m, n = inp['shape']
+    col = [float(x) for x in inp['colour']]
+    rgb = by.demosaic_malvar(_colour_mosaic(m, n, inp['cfa'], col), inp['cfa'])
+    if rgb.shape != (m, n, 3):
+        return False, f'shape {rgb.shape}'
+    inner = rgb[2:m - 2, 2:n - 2]
+    for k, nm in enumerate(('red', 'green', 'blue')):
+        if not np.allclose(inner[..., k], col[k], rtol=1e-12, atol=1e-12 * max(abs(c) for c in col)):
+            bad = np.argwhere(~np.isclose(inner[..., k], col[k], rtol=1e-12, atol=1e-12 * max(abs(c) for c in col)))[0]
+            return False, (f'mosaic of the uniform colour {col}: {nm} channel reads {inner[bad[0], bad[1], k]!r} at interior sample '
+                           f'({bad[0] + 2}, {bad[1] + 2}), expected {col[k]!r}')
+    return True, f'{inner.shape[0] * inner.shape[1]} interior samples'
+
+
+def pred_malvar_ramp(inp):
+    """theorem malvar_affine_exact: affine luminance a*row + b*column plus constant colour offsets (r, g, b) is reconstructed exactly
+    in every channel at every sample two or more samples from the border"""
+    by = _impl()[1]
+    m, n = inp['shape']
+    a, b = inp['slope']
+    col = [float(x) for x in inp['colour']]
+    R, Cc = np.meshgrid(np.arange(m, dtype=float), np.arange(n, dtype=float), indexing='ij')
+    lum = a * R + b * Cc
+    rgb = by.demosaic_malvar(lum + _colour_mosaic(m, n, inp['cfa'], col), inp['cfa'])
+    if rgb.shape != (m, n, 3):
+        return False, f'shape {rgb.shape}'
+    scale = max(1.0, np.abs(lum).max() + max(abs(c) for c in col))
+    for k, nm in enumerate(('red', 'green', 'blue')):
+        err = np.abs(rgb[2:m - 2, 2:n - 2, k] - (lum + col[k])[2:m - 2, 2:n - 2])
+        if err.size and err.max() > 1e-12 * scale:
+            j, i = np.unravel_index(int(np.argmax(err)), err.shape)
+            return False, (f'affine luminance {a}*row + {b}*col with colour offsets {col}: {nm} channel reads {rgb[j + 2, i + 2, k]!r} at '
+                           f'interior sample ({j + 2}, {i + 2}), scene value {lum[j + 2, i + 2] + col[k]!r}')
+    return True, 'ok'
+
+
 def pred_wb(inp):
     by = _impl()[1]
     img = np.asarray(inp['img'], dtype=float)
@@ -643,9 +732,10 @@ def _layout_cases(rng, m, n, quick):
     return out
 
 
-PREDS = {'dn_range': pred_dn_range, 'dn_monotone': pred_dn_monotone, 'dn_formula': pred_dn_formula, 'dn_frames': pred_dn_frames,
+PREDS = {'dn_range': pred_dn_range, 'dn_monotone': pred_dn_monotone, 'dn_formula': pred_dn_formula, 'dn_frames': pred_dn_frames, 'dn_lut': pred_dn_lut,
          'bin': pred_bin, 'tile': pred_tile, 'bin_tile_adjoint': pred_adjoint, 'expose_bin': pred_expose_bin, 'bayer_roundtrip': pred_bayer_roundtrip,
          'bayer_composite': pred_bayer_composite, 'malvar_native': pred_malvar_native, 'malvar_constant': pred_malvar_constant,
+         'malvar_colour': pred_malvar_colour, 'malvar_ramp': pred_malvar_ramp,
          'wb_prescale': pred_wb, 'wb_safe': pred_wb_safe, 'wb_postscale': pred_wb_post, 'dn_real_rng': pred_dn_real_rng,
          'expose_draws': pred_expose_draws, 'mode_spellings': pred_mode_spellings, 'layouts': pred_layouts}
 
@@ -810,6 +900,9 @@ def correspondence(ctx):
                     _check(ctx, 'dn_monotone', inp, desc, True, f'bits{bits}/{kind}')
                 if frames != 1:
                     _check(ctx, 'dn_frames', inp, desc, True, f'bits{bits}')
+                if bits <= 14:   # (a table of 2^bits entries)
+                    lk = ('identity', 'scramble', 'gamma')[(bits + frames) % 3]
+                    _check(ctx, 'dn_lut', dict(inp, lut=lk), dict(desc, lut=lk), True, f'bits{bits}/{lk}/frames{frames}')
         # sorted ramp through saturation, unit gain and a fractional gain
         for gain in (1.0, 0.37):
             cap = 2.0 ** bits
@@ -975,6 +1068,26 @@ def correspondence(ctx):
                         k = np.unravel_index(int(np.argmax(np.abs(got - model))), model.shape) if got.shape == model.shape else None
                         ctx.disagree('malvar', desc, f'{got[k] if k else got.shape} at {k}', f'{model[k] if k else model.shape}')
                 ask(f'malvar {cfa} {m} {n} {_il(img)}', chk)
+
+                def chk(row, img=img, cfa=cfa, desc=desc, m=m, n=n):
+                    model = np.moveaxis(_rats(row).reshape(3, m // 2, n // 2), 0, 2)
+                    ctx.case('deinterlace', desc, tag=cfa)
+                    got = by.demosaic_deinterlace(img.copy(), cfa)
+                    if got.shape != model.shape or not np.array_equal(got, model):
+                        ctx.disagree('deinterlace', desc, f'{got.shape}: {np.asarray(got).ravel()[:6].tolist()}', f'{model.shape}: {model.ravel()[:6].tolist()}')
+                ask(f'deinterlace {cfa} {m} {n} {_il(img)}', chk)
+                g3 = [float(x) for x in np.round(rng.uniform(0.4, 2.6, 3), 3)]
+                rgb0 = rng.integers(1, 999, size=(m // 2, n // 2, 3)).astype(float)
+
+                def chk(row, rgb0=rgb0, g3=g3, desc=desc, m=m, n=n):
+                    model = np.moveaxis(_rats(row).reshape(3, m // 2, n // 2), 0, 2)
+                    ctx.case('wb_postscale.model', dict(desc, gains=g3), tag='distinct gains')
+                    out = rgb0.copy()
+                    by.wb_postscale(out, *g3)
+                    if not np.allclose(out, model, rtol=1e-14, atol=0):
+                        ctx.disagree('wb_postscale', dict(desc, gains=g3), 'scaled image differs', 'model: each channel by its own gain')
+                ask(f'postscale {m // 2} {n // 2} ' + ' '.join(C.q2w(Fraction(str(x))) for x in g3) + ' '
+                    + ' '.join(_il(rgb0[..., k]) for k in range(3)), chk)
                 gains = [float(x) for x in np.round(rng.uniform(0.5, 2.5, 4), 3)]
                 gq = [Fraction(str(x)) for x in gains]
 
@@ -1022,6 +1135,22 @@ def correspondence(ctx):
                 hotname = [nm for nm in PL if nat[nm] == (r0, c0)][0]
                 sats = [sat * (0.4 if nm == hotname else 1.0 + 0.5 * k) for k, nm in enumerate(PL)]
                 for sv in (sat, sats):
+                    def chk(row, base=base, cfa=cfa, sv=sv, hot=hot, m=m, n=n):
+                        model = float(_rats(row)[0])
+                        d = {'shape': [m, n], 'cfa': cfa, 'kind': 'pre', 'hot': hot, 'saturation': sv}
+                        ctx.case('wb_safe.ratio', d, tag=f'pre/{"list" if isinstance(sv, list) else "scalar"}/{"limited" if model > 1 else "untouched"}')
+                        out = base.copy()
+                        try:
+                            by.wb_prescale(out, 1.0, 1.0, 1.0, 1.0, cfa=cfa, safe=True, saturation=sv)
+                        except Exception as ex:
+                            ctx.disagree('wb_safe.ratio', d, f'raised {type(ex).__name__}: {ex}', f'ratio {model}')
+                            return
+                        got = float(base[0, 0] / out[0, 0])
+                        if abs(got - model) > 1e-12 * model or not np.allclose(out * model, base, rtol=1e-12, atol=0):
+                            ctx.disagree('wb_safe.ratio', d, f'descaling ratio {got!r}', f'{model!r}')
+                    pls = by.decomposite_bayer(base, cfa)
+                    svl = sv if isinstance(sv, list) else [sv] * 4
+                    ask('saferatio ' + ' '.join(f'{C.q2w(Fraction(float(p.max())))} {C.q2w(Fraction(float(q)))}' for p, q in zip(pls, svl)), chk)
                     _check(ctx, 'wb_safe', {'kind': 'pre', 'img': base.tolist(), 'cfa': cfa if hot % 2 else cfa.upper(), 'saturation': sv},
                            {'shape': [m, n], 'cfa': cfa, 'kind': 'pre', 'hot': hot, 'saturation': sv}, True,
                            f'pre/hot{hot}/{"list" if isinstance(sv, list) else "scalar"}')
@@ -1031,6 +1160,21 @@ def correspondence(ctx):
                 sat = float(rng.choice([900.0, 1500.0, 5000.0]))
                 sats = [sat * (0.4 if k == hot else 1.0 + 0.5 * k) for k in range(3)]
                 for sv in (sat, sats):
+                    def chk(row, rgb=rgb, sv=sv, hot=hot, m=m, n=n):
+                        model = float(_rats(row)[0])
+                        d = {'shape': [m // 2, n // 2, 3], 'kind': 'post', 'hot': hot, 'saturation': sv}
+                        ctx.case('wb_safe.ratio', d, tag=f'post/{"list" if isinstance(sv, list) else "scalar"}/{"limited" if model > 1 else "untouched"}')
+                        out = rgb.copy()
+                        try:
+                            by.wb_postscale(out, 1.0, 1.0, 1.0, safe=True, saturation=sv)
+                        except Exception as ex:
+                            ctx.disagree('wb_safe.ratio', d, f'raised {type(ex).__name__}: {ex}', f'ratio {model}')
+                            return
+                        got = float(rgb[0, 0, 0] / out[0, 0, 0])
+                        if abs(got - model) > 1e-12 * model or not np.allclose(out * model, rgb, rtol=1e-12, atol=0):
+                            ctx.disagree('wb_safe.ratio', d, f'descaling ratio {got!r}', f'{model!r}')
+                    svl = sv if isinstance(sv, list) else [sv] * 3
+                    ask('saferatio ' + ' '.join(f'{C.q2w(Fraction(float(rgb[..., k].max())))} {C.q2w(Fraction(float(svl[k])))}' for k in range(3)), chk)
                     _check(ctx, 'wb_safe', {'kind': 'post', 'rgb': rgb.tolist(), 'saturation': sv},
                            {'shape': [m // 2, n // 2, 3], 'kind': 'post', 'hot': hot, 'saturation': sv}, True,
                            f'post/hot{hot}/{"list" if isinstance(sv, list) else "scalar"}')
@@ -1039,6 +1183,31 @@ def correspondence(ctx):
                 _check(ctx, 'wb_postscale', {'rgb': rgb.tolist(), 'gains': g3, 'saturation': None if hot == 0 else (sat if hot == 1 else sats)},
                        {'shape': [m // 2, n // 2, 3], 'gains': g3, 'hot': hot}, True, f'hot{hot}')
             _check(ctx, 'malvar_constant', {'shape': [m, n], 'cfa': cfa, 'level': 137.5}, {'shape': [m, n], 'cfa': cfa}, True, cfa)
+
+    # Malvar on mosaics of ONE colour (hypotheses of theorem malvar_uniform_colour: an interior exists, m, n >= 5): the predicate
+    # on the real code, and the same mosaic through the model (all samples, border included)
+    for (m, n) in COLOUR_SHAPES[:(None if ctx.thorough else 6)]:
+        for cfa in ('rggb', 'bggr'):
+            for rep in range(ctx.scale(2, 5)):
+                col = [float(x) for x in (rng.integers(1, 4000, size=3) if rep else np.array([900, 250, 40])[rng.permutation(3)])]
+                ucfa = cfa.upper() if rep % 2 else cfa
+                desc = {'shape': [m, n], 'cfa': ucfa, 'colour': col}
+                _check(ctx, 'malvar_colour', {'shape': [m, n], 'cfa': ucfa, 'colour': col}, desc, True,
+                       f'{cfa}/{"odd" if (m % 2 or n % 2) else "even"}/interior{(m - 4) * (n - 4)}')
+                slope = [float(x) for x in np.round(rng.uniform(-30, 30, 2), 2)]
+                _check(ctx, 'malvar_ramp', {'shape': [m, n], 'cfa': ucfa, 'colour': col, 'slope': slope}, dict(desc, slope=slope), True,
+                       f'{cfa}/{"odd" if (m % 2 or n % 2) else "even"}')
+                if rep == 0:
+                    img = _colour_mosaic(m, n, cfa, col)
+
+                    def chk(row, img=img, cfa=cfa, desc=desc, m=m, n=n):
+                        model = np.moveaxis(_rats(row).reshape(3, m, n), 0, 2)
+                        ctx.case('malvar.colour', desc, tag=cfa)
+                        got = by.demosaic_malvar(img.copy(), cfa)
+                        if got.shape != model.shape or not np.allclose(got, model, rtol=1e-12, atol=1e-9):
+                            k = np.unravel_index(int(np.argmax(np.abs(got - model))), model.shape) if got.shape == model.shape else None
+                            ctx.disagree('malvar', desc, f'{got[k] if k else got.shape} at {k}', f'{model[k] if k else model.shape}')
+                    ask(f'malvar {cfa} {m} {n} {_il(img)}', chk)
 
     rows = C.lean_driver('C16', lines)
     for row, fn in zip(rows, todo):
@@ -1080,6 +1249,12 @@ def search(ctx, hints):
             ok, detail = _run_pred(name, inp)
             if not ok:
                 return found(name, inp, detail)
+        if bits <= 12:
+            for lk, fr in (('identity', 1), ('scramble', 1), ('scramble', 2)):
+                inp = {'cfg': cfg, 'img': ramp, 'lut': lk, 'frames': fr}
+                ok, detail = _run_pred('dn_lut', inp)
+                if not ok:
+                    return found('dn_lut', inp, detail)
         for maps in ('image', 'flat'):
             pr = [[1.0, 0.9, 1.1, 1.0, 1.0, 1.0, 1.0]]
             cfg2 = dict(cfg, prnu=pr if maps == 'image' else pr[0], dcnu=[[1.0] * 7])
@@ -1155,6 +1330,17 @@ def search(ctx, hints):
                 ok, detail = _run_pred(name, inp)
                 if not ok:
                     return found(name, inp, detail)
+    for (m, n) in COLOUR_SHAPES[:4]:
+        for cfa in ('rggb', 'bggr'):
+            for col in ([100.0, 10.0, 1.0], [3.0, 50.0, 700.0]):
+                inp = {'shape': [m, n], 'cfa': cfa, 'colour': col}
+                ok, detail = _run_pred('malvar_colour', inp)
+                if not ok:
+                    return found('malvar_colour', inp, detail)
+                inp = {'shape': [m, n], 'cfa': cfa, 'colour': col, 'slope': [3.0, -5.0]}
+                ok, detail = _run_pred('malvar_ramp', inp)
+                if not ok:
+                    return found('malvar_ramp', inp, detail)
     return None
 
 
@@ -1164,7 +1350,7 @@ def replay(inp):
     if name not in PREDS:
         print('no replay routine for item', name)
         return False
-    brief = {k: v for k, v in inp.items() if k in ('cfg', 'factor', 'cfa', 'frames', 'gains', 'saturation', 'shape', 'level', 'dtype', 'seed', 'kind', 'fn', 'layouts', 'maps')}
+    brief = {k: v for k, v in inp.items() if k in ('cfg', 'factor', 'cfa', 'frames', 'gains', 'saturation', 'shape', 'level', 'colour', 'slope', 'dtype', 'seed', 'kind', 'fn', 'layouts', 'maps', 'lut')}
     print(f'replaying {name}: {brief}')
     if name.startswith('dn_') and name != 'dn_real_rng':
         try:
@@ -1192,19 +1378,26 @@ MANIFEST_ENTRY = {
              'positions over N x N, no shape involved; the reflect boundary and shapes are covered by the correspondence only): '
              'the four slices partition the samples, recomposite(decomposite)=id and back for both layouts, composite / wb_prescale '
              '/ wb_postscale act on the native site / channel of each colour, Malvar copies the raw sample at the native site, '
-             'kernels 5x5, symmetric, unit sum, uniform mosaic -> uniform image; safe white balance WITH UNIT GAINS leaves no '
+             'kernels 5x5, symmetric, unit sum, uniform mosaic -> uniform image; the mosaic of ONE COLOUR (r, g, b) demosaicks to '
+             '(r, g, b) in every channel at every sample >= 2 from the border, every size, both layouts (pins which filtered image '
+             'c1/c2/c3 serves which site; border: correspondence only), more generally Malvar is exact on affine luminance with '
+             'constant colour differences at those samples; demosaic_deinterlace returns the red and blue planes '
+             'sample for sample and the mean of the two greens; safe white balance WITH UNIT GAINS leaves no '
              'inspected plane above its saturation level. TRANSLATED each run: ADC ceiling, container-width chain, the clip / gain / '
              'clip chain of expose statement by statement (nothing but shape handling / lut / return may follow the cast), '
              'bindown/tile shape formulas, reduction axes, scale factors, Bayer slices and plane/site/gain tables (pre and post), '
-             'Malvar source table, kernels, divisor, the safe-limiting loop step. RECOGNISER FACTS only (no Lean content): output '
+             'Malvar source table, kernels, divisor, the green average of demosaic_deinterlace (as a term), the safe-limiting loop step. RECOGNISER FACTS only (no Lean content): output '
              'shape (frames, *image.shape), interleaved views, mode tables, planes inspected / per-plane saturation / gains divided. '
              'MODELLED AND COMPARED (driver runs the HAND model): exposure on doubles (DN exact, bits 1..32, maps, frames, 1-D..4-D '
              'images), container rejection for bits > 32, N-D binning/tiling on floats and on uint8/16/32, int8/16/32, bool arrays '
              'at the container ends, frames from expose sum-binned, all mode spellings, full Malvar demosaick on rationals, Bayer '
              'functions on uint8/uint16/int32/float32/float64 (fractions, > 2^24) with dtype preservation, output= buffers, '
              'upper-case layouts, distinct gains and per-plane saturation lists; one pass per bit depth with the REAL seeded RNG '
-             '(range, dtype, shape, 8-sigma band) and a recording of what is asked of the RNG (rate, sigma, sizes).'),
+             '(range, dtype, shape, 8-sigma band) and a recording of what is asked of the RNG (rate, sigma, sizes); '
+             'demosaic_deinterlace, wb_postscale and the descaling ratio of safe white balance (pre and post, scalar and per-plane '
+             'saturation) against the model on rationals; Malvar on one-colour mosaics (5x5..16x16, odd shapes); Detector(lut=...) '
+             'for bits <= 14 (identity, permutation and float tables, 1 and 3 frames): exposure = lut[DN without lut].'),
     'note': ('Trusted: the unsigned cast of an in-range double is floor; NumPy reshape/broadcast/ndimage.convolve semantics '
-             '(compared); 64-bit accumulation of integer sums. Not covered: the distribution of the random draws, lut, '
+             '(compared); 64-bit accumulation of integer sums. Not covered: the distribution of the random draws, '
              'assemble_superresolved, safe white balance with non-unit gains (nothing is promised by the code).'),
 }
